@@ -133,6 +133,7 @@ func TryCreateRLockFile(filePath string) (controlFile *ControlFile, err error) {
 	verifPoint("rlock.lock")
 	lfp, err := file.Create(lockFilePath)
 	if err != nil {
+		removeUnlockedFile(lockFilePath, err)
 		return nil, NewLockError(fmt.Sprintf("failed to create %s file for %q", RLock, filePath))
 	}
 	lockFile := NewControlFile(lockFilePath, lfp)
@@ -144,6 +145,7 @@ func TryCreateRLockFile(filePath string) (controlFile *ControlFile, err error) {
 	rlockFilePath := RLockFilePath(filePath)
 	fp, e := file.Create(rlockFilePath)
 	if e != nil {
+		removeUnlockedFile(rlockFilePath, e)
 		return nil, NewLockError(fmt.Sprintf("failed to create %s file for %q", RLock, filePath))
 	}
 
@@ -160,6 +162,7 @@ func TryCreateLockFile(filePath string) (*ControlFile, error) {
 	verifPoint("lock.create")
 	fp, err := file.Create(lockFilePath)
 	if err != nil {
+		removeUnlockedFile(lockFilePath, err)
 		return nil, NewLockError(fmt.Sprintf("failed to create %s file for %q", Lock, filePath))
 	}
 	lockFile := NewControlFile(lockFilePath, fp)
@@ -179,8 +182,17 @@ func TryCreateTempFile(filePath string) (*ControlFile, error) {
 	verifPoint("temp.create")
 	fp, err := file.Create(tempFilePath)
 	if err != nil {
+		removeUnlockedFile(tempFilePath, err)
 		return nil, NewLockError(fmt.Sprintf("failed to create %s file for %q", Temporary, filePath))
 	}
 
 	return NewControlFile(tempFilePath, fp), nil
+}
+
+// file.Create makes the file and then locks it. When only the locking fails, the file
+// that this call has just made would stay behind and block every later access to the table.
+func removeUnlockedFile(path string, err error) {
+	if _, ok := err.(*file.LockError); ok {
+		_ = os.Remove(path)
+	}
 }
